@@ -115,6 +115,9 @@ val st_accept_loop :
   (nat -> cnf -> lit list -> answer) -> nat -> nat list -> bool -> bool ->
   comp list -> nat list -> bool -> (bool * nat list option) coq_M
 
+val st_se :
+  (nat -> cnf -> lit list -> answer) -> nat -> gview -> nat list option coq_M
+
 val st_accept :
   (nat -> cnf -> lit list -> answer) -> nat -> gview -> nat list -> bool ->
   bool -> (bool * nat list option) coq_M
